@@ -113,3 +113,35 @@ pub fn leak_drain_u8(is_row: bool, c: usize, r: usize) {
     inv(&t);
     end_reached!();
 }
+
+/// Leaked drains over zero-sized owning elements (`size_of::<T>() == 0` paths): the array stays valid,
+/// no element is dropped twice (ledger never exceeds the number made, never goes negative) and the array
+/// can still be used and dropped.
+pub fn leak_drain_zst(is_row: bool, c: usize, r: usize) {
+    reset();
+    let mut t: TooDee<Zst> = TooDee::from_vec(c, r, zsts(c * r));
+    let dim = if is_row { r } else { c };
+    let idx = nd::below(dim);
+    let take = nd::upto(2);
+    let mut taken = 0;
+    if is_row {
+        let mut d = t.remove_row(idx);
+        if take > 0 && d.next().is_some() { taken += 1; }
+        if take > 1 && d.next_back().is_some() { taken += 1; }
+        core::mem::forget(d);
+    } else {
+        let mut d = t.remove_col(idx);
+        if take > 0 && d.next().is_some() { taken += 1; }
+        if take > 1 && d.next_back().is_some() { taken += 1; }
+        core::mem::forget(d);
+    }
+    inv(&t);
+    let n = t.data().len();
+    assert!(n <= c * r, "ORACLE: array grew by leaking a drain");
+    // the yielded elements were dropped by the harness; everything else is still live (owned or leaked)
+    assert!(zlive() == (c * r) as isize - taken as isize, "ORACLE: zero-sized elements dropped by leaking a drain");
+    drop(t);
+    // dropping the array drops exactly the n cells it still owns
+    assert!(zlive() == (c * r) as isize - taken as isize - n as isize, "ORACLE: zero-sized elements dropped twice (or not at all) after a leaked drain");
+    end_reached!();
+}
